@@ -365,6 +365,11 @@ class Walker:
         # --- await collapse
         if decl == "std::future::Future::poll" and any(m == "desugar:Await" for m in macs):
             fut = strip_refs(args[0]) if args else ("unk", "poll")
+            if isinstance(fut, tuple) and fut[0] == "call" and fut[1] == "std::future::pending":
+                # `pending().await` never completes: the logical path ends here
+                st["events"].append(("await", fut, bi, loc_of(at), None))
+                self._finish(st, ("pending",))
+                return None
             val = ("poll", fut, bi)
             st["events"].append(("await", fut, bi, loc_of(at), f.get("targs", [None])[0]))
         elif decl == "std::ops::Try::branch":
